@@ -44,21 +44,54 @@ Fixpoint fc_drv (st : fcst) (ops : list (N * N)) (obs : list fcobs) : bool :=
   end.
 
 (* ---------------- hbConn queue under a schedule ---------------- *)
-(* ops: true = recvLoop handles one message, false = the reader's Read.
+(* The driver's ops on the real hbConn, expressed in the steps of the refined model
+   (h2_step, fast and drain both present = the fixed code):
+   0 'r' = one permit for recvLoop (read one message, push or hold it, Close if it carried an error),
+   1 'R' = let the reader run until it returns or parks (a parked reader is completed by a later push/close),
+   2 'T' = the interval elapses while recvLoop waits for room.
    observed per op: kind 0 none / 1 blocked / 2 got / 3 ErrClosed *)
-Fixpoint hbq_match (os : list hbout) (ops : list bool) (obs : list (N * bspec * option N)) : bool :=
-  match os, ops, obs with
-  | [], [], [] => true
-  | o :: os', op :: ops', (k, d, e) :: obs' =>
-      (if op then true
-       else match o with
-            | HBlocked => k =? 1
-            | HGot (md, me) => (k =? 2) && bspec_matches d md && oerr_eqb me e
-            | HErrClosed => k =? 3
-            | HNone => false
-            end) && hbq_match os' ops' obs'
-  | _, _, _ => false
-  end.
+Section HbqRun.
+  Variable mx : nat.
+  Variable hb : bytes.
+  Definition h2s := h2_step mx hb true true.
+  (* recvLoop closes as soon as it has pushed a message that came with an error *)
+  Definition h2norm (st : h2st) : h2st :=
+    match h2loop st with LClosing => fst (h2s st OLoop) | _ => st end.
+  Definition hbq_op (st : h2st) (op : N) : h2st * h2out :=
+    match op with
+    | 0 => (h2norm (fst (h2s st OLoop)), ONone)
+    | 1 =>
+        match h2rd st with
+        | RIdle =>
+            let '(s1, o) := h2s st ORStart in
+            match o with
+            | OGot _ => (h2norm s1, o)
+            | _ => if h2closed s1 then let '(s2, _) := h2s s1 OREnterC in
+                                        let '(s3, o3) := h2s s2 ORDrain in (h2norm s3, o3)
+                   else (fst (h2s s1 OREnterPark), ONone)
+            end
+        | RParked => (st, ONone)
+        | RHas _ => h2s st ORWake
+        | RDrain => let '(s1, o) := h2s st ORDrain in (h2norm s1, o)
+        | RSel => (st, ONone)
+        end
+    | _ => (fst (h2s st OTimeout), ONone)
+    end.
+  Fixpoint hbq_run (st : h2st) (ops : list N) (obs : list (N * bspec * option N)) : bool :=
+    match ops, obs with
+    | [], [] => true
+    | op :: ops', (k, d, e) :: obs' =>
+        let '(s1, o) := hbq_op st op in
+        (if op =? 1 then
+           match o with
+           | ONone => k =? 1
+           | OGot (md, me) => (k =? 2) && bspec_matches d md && oerr_eqb me e
+           | OErrClosed => k =? 3
+           end
+         else true) && hbq_run s1 ops' obs'
+    | _, _ => false
+    end.
+End HbqRun.
 
 (* ---------------- watchdog ---------------- *)
 (* hbs k = number of heartbeats that arrive during the k-th sleep of the loop;
@@ -172,7 +205,7 @@ Inductive case :=
 | CRead (server : bool) (mx : N) (hb : bytes) (raw : list (bspec * option N)) (sizes : list N)
         (obs : list (bspec * option N))
 | CFc (ops : list (N * N)) (obs : list fcobs)
-| CHbq (mx : N) (hb : bytes) (raw : list (bspec * option N)) (ops : list bool) (obs : list (N * bspec * option N))
+| CHbq (mx : N) (hb : bytes) (raw : list (bspec * option N)) (ops : list N) (obs : list (N * bspec * option N))
 | CWd (hbs : list nat) (closed_tick : N)
 | CReg (nsec : nat) (asecl : list N) (areal : list bool) (csecl : list N) (ops : list (N * nat))
        (obs : list regobs) (ares_obs apc_obs : list N)
@@ -189,10 +222,7 @@ Definition chk (c : case) : bool :=
                           else client_reads (N.to_nat mx) sz s in
       rres_match res obs
   | CFc ops obs => fc_drv fc_init ops obs
-  | CHbq mx hb raw ops obs =>
-      let '(_, os) := hb_run (N.to_nat mx) hb (hb_init (mk_script raw))
-                             (map (fun b : bool => if b then HRecv else HRead) ops) in
-      hbq_match os ops obs
+  | CHbq mx hb raw ops obs => hbq_run (N.to_nat mx) hb (h2_init (mk_script raw)) ops obs
   | CWd hbs tick => wd_model hbs =? tick
   | CReg nsec asecl areal csecl ops obs ares_obs apc_obs =>
       match reg_drv asecl csecl areal nsec linit ops obs with
